@@ -54,7 +54,9 @@ func runScenario(rigs rigSet, p Params) outcome {
 	}
 	sc.farAddr = l.Addr().String()
 	reg.put(sc.farAddr, sc)
-	defer reg.del(sc.farAddr)
+	// the registry entry goes before the listening port is released (deferred calls run in reverse)
+	defer l.Close()
+	defer reg.del(sc.farAddr, sc)
 	var wg sync.WaitGroup
 	wg.Add(2)
 	go sc.runFar(l, rig.tlsServer, &wg)
@@ -708,7 +710,7 @@ func main() {
 		}
 	}
 	meta := map[string]any{
-		"sample_trace": sampleTrace,
+		"sample_trace": sampleTrace, "unmatched_accepts": unmatchedAccepts.Load(),
 		"shards": shards, "shard_index": shardIndex,
 		"scenarios": len(all), "gated_concrete": len(groups["ccases"].cases), "gated_abstract": len(groups["acases"].cases),
 		"native": len(groups["ncases"].cases), "grace_batch": len(graceOuts), "short_grace_ns": shortGrace,
